@@ -1,5 +1,4 @@
-(* C03 - proofs.  The frame (unwinding) theorem over all interleavings, its instances,
-   and the witnesses that refute the full statement for ldap, ftp and smtp. *)
+(* C03 - proofs.  The frame (unwinding) theorem over all interleavings and its instances. *)
 From Coq Require Import Lia.
 From HT Require Import C03.Model.
 Open Scope N_scope.
@@ -243,184 +242,6 @@ Proof.
   - exact H.
 Qed.
 
-(* ---------- ftp: what is isolated (the replies, as long as the other sessions do not
-   change directory) ---------- *)
-Definition keeps_directory (x : input) : Prop :=
-  match x with Tok t _ _ => t <> 4 /\ t <> 5 | _ => True end.
-
-Lemma ftp_cmd_cwd_only s1 s2 c t a :
-  f_cwd s1 = f_cwd s2 ->
-  snd (fst (ftp_cmd s1 c t a)) = snd (fst (ftp_cmd s2 c t a)) /\
-  snd (ftp_cmd s1 c t a) = snd (ftp_cmd s2 c t a) /\
-  f_cwd (fst (fst (ftp_cmd s1 c t a))) = f_cwd (fst (fst (ftp_cmd s2 c t a))).
-Proof.
-  intros H. unfold ftp_cmd. rewrite H.
-  repeat match goal with
-  | |- context [if ?c then _ else _] => destruct c
-  | |- context [match change_dir ?p ?q with _ => _ end] => destruct (change_dir p q)
-  end; cbn [fst snd f_cwd]; auto.
-Qed.
-
-Lemma ftp_cmd_keeps s c t a : t <> 4 -> t <> 5 -> f_cwd (fst (fst (ftp_cmd s c t a))) = f_cwd s.
-Proof.
-  intros H4 H5. unfold ftp_cmd.
-  destruct (N.eqb_spec t 4); [contradiction|]. destruct (N.eqb_spec t 5); [contradiction|].
-  cbn [orb].
-  repeat match goal with
-  | |- context [if ?c then _ else _] => destruct c
-  end; reflexivity.
-Qed.
-
-Definition ftp_quiet := erase_events ftp_step.
-
-Lemma ftp_others i (a : sys ftp_shared ftp_conn) j x : j <> i -> keeps_directory x ->
-  eqv _ _ _ i f_cwd (fst (ftp_quiet a j x)) a /\
-  on_conn i (fst (snd (ftp_quiet a j x))) = [] /\ on_conn i (snd (snd (ftp_quiet a j x))) = [].
-Proof.
-  intros Hne Hk. assert (Hne' : i <> j) by congruence.
-  unfold ftp_quiet, erase_events, ftp_step. destruct x as [|t arg pick|].
-  - destruct (fc_ph (conns a j) =? PH_NONE); cbn [fst snd shared conns f_cwd].
-    + split; [split; [apply upd_other; exact Hne'|reflexivity]|].
-      split; [|reflexivity]. unfold on_conn. cbn [filter fst].
-      destruct (N.eqb_spec j i); [contradiction|reflexivity].
-    + split; [split; reflexivity|split; reflexivity].
-  - destruct (negb (fc_ph (conns a j) =? PH_LIVE)); [split; [split; reflexivity|split; reflexivity]|].
-    destruct Hk as [H4 H5]. pose proof (ftp_cmd_keeps (shared a) (conns a j) t arg H4 H5) as Hc.
-    destruct (ftp_cmd (shared a) (conns a j) t arg) as [[s' c'] rs]. cbn [fst snd] in *.
-    split; [split; [apply upd_other; exact Hne'|exact Hc]|].
-    split; [apply on_conn_pair_ne; exact Hne|reflexivity].
-  - destruct (fc_ph (conns a j) =? PH_LIVE); cbn [fst snd shared conns].
-    + split; [split; [apply upd_other; exact Hne'|reflexivity]|split; reflexivity].
-    + split; [split; reflexivity|split; reflexivity].
-Qed.
-
-Lemma ftp_own i (a b : sys ftp_shared ftp_conn) x : eqv _ _ _ i f_cwd a b ->
-  eqv _ _ _ i f_cwd (fst (ftp_quiet a i x)) (fst (ftp_quiet b i x)) /\
-  on_conn i (fst (snd (ftp_quiet a i x))) = on_conn i (fst (snd (ftp_quiet b i x))) /\
-  on_conn i (snd (snd (ftp_quiet a i x))) = on_conn i (snd (snd (ftp_quiet b i x))).
-Proof.
-  intros [Hc Hv]. unfold ftp_quiet, erase_events, ftp_step. rewrite Hc. destruct x as [|t arg pick|].
-  - destruct (fc_ph (conns b i) =? PH_NONE); cbn [fst snd shared conns f_cwd].
-    + split; [split; [cbn [conns]; now rewrite !upd_same|exact Hv]|split; reflexivity].
-    + split; [split; assumption|split; reflexivity].
-  - destruct (negb (fc_ph (conns b i) =? PH_LIVE)); [split; [split; assumption|split; reflexivity]|].
-    destruct (ftp_cmd_cwd_only (shared a) (shared b) (conns b i) t arg Hv) as (E1 & E2 & E3).
-    destruct (ftp_cmd (shared a) (conns b i) t arg) as [[sa ca] ra].
-    destruct (ftp_cmd (shared b) (conns b i) t arg) as [[sb cb] rb]. cbn [fst snd] in *. subst.
-    split; [split; [cbn [conns]; now rewrite !upd_same|exact E3]|split; reflexivity].
-  - destruct (fc_ph (conns b i) =? PH_LIVE); cbn [fst snd shared conns].
-    + split; [split; [cbn [conns]; now rewrite !upd_same|exact Hv]|split; reflexivity].
-    + split; [split; assumption|split; reflexivity].
-Qed.
-
-Theorem ftp_replies_frame : forall i tr,
-  Forall (fun p : N * input => fst p = i \/ keeps_directory (snd p)) tr ->
-  replies_on i (run_outs ftp_quiet ftp_s0 ftp_c0 tr) = replies_on i (run_outs ftp_quiet ftp_s0 ftp_c0 (own i tr)).
-Proof.
-  intros i tr H. unfold run_outs.
-  pose proof (frame ftp_shared ftp_conn _ ftp_quiet i f_cwd (fun _ x => keeps_directory x)) as F.
-  specialize (F (fun a j x Hne Hk => ftp_others i a j x Hne Hk) (fun a b x Hab => ftp_own i a b x Hab)).
-  specialize (F tr (mkSys ftp_s0 (fun _ => ftp_c0)) (mkSys ftp_s0 (fun _ => ftp_c0)) (conj eq_refl eq_refl) H).
-  exact (f_equal fst F).
-Qed.
-
-(* erasing the events does not change the replies *)
-Lemma erase_replies {S C} (step : sys S C -> N -> input -> sys S C * outs) i : forall tr st,
-  replies_on i (snd (run (erase_events step) st tr)) = replies_on i (snd (run step st tr)).
-Proof.
-  induction tr as [|[j x] r IH]; intros st; [reflexivity|].
-  rewrite !run_cons. unfold replies_on in *. cbn [flat_map].
-  unfold erase_events at 1 3. destruct (step st j x) as [st' o]. cbn [fst snd]. now rewrite IH.
-Qed.
-
-Theorem ftp_replies_isolated : forall i tr,
-  Forall (fun p : N * input => fst p = i \/ keeps_directory (snd p)) tr ->
-  replies_on i (run_outs ftp_step ftp_s0 ftp_c0 tr) = replies_on i (run_outs ftp_step ftp_s0 ftp_c0 (own i tr)).
-Proof.
-  intros i tr H. unfold run_outs.
-  rewrite <- (erase_replies ftp_step i tr), <- (erase_replies ftp_step i (own i tr)).
-  apply ftp_replies_frame; exact H.
-Qed.
-
-(* ---------- smtp: the replies never depend on other connections ---------- *)
-Definition smtp_quiet := erase_events smtp_step.
-
-Lemma erase_fst {S C} (step : sys S C -> N -> input -> sys S C * outs) a j x :
-  fst (erase_events step a j x) = fst (step a j x).
-Proof. unfold erase_events. destruct (step a j x); reflexivity. Qed.
-Lemma erase_snd {S C} (step : sys S C -> N -> input -> sys S C * outs) a j x :
-  snd (erase_events step a j x) = (fst (snd (step a j x)), []).
-Proof. unfold erase_events. destruct (step a j x); reflexivity. Qed.
-
-Lemma smtp_step_others i (a : sys (list N) N) j x : j <> i ->
-  conns (fst (smtp_step a j x)) i = conns a i /\ on_conn i (fst (snd (smtp_step a j x))) = [].
-Proof.
-  intros Hne. assert (Hne' : i <> j) by congruence.
-  assert (Hn1 : forall A (y : A), on_conn i [(j, y)] = []).
-  { intros A y. unfold on_conn. cbn [filter fst]. destruct (N.eqb_spec j i); [contradiction|reflexivity]. }
-  unfold smtp_step. destruct x as [|t arg pick|].
-  - destruct (conns a j =? 0); cbn [fst snd conns]; [|split; reflexivity].
-    split; [apply upd_other; exact Hne'|apply Hn1].
-  - destruct ((conns a j =? 0) || (conns a j =? 5)); [split; reflexivity|].
-    destruct (conns a j =? 4).
-    + destruct (t =? 5); cbn [fst snd conns]; [|split; reflexivity].
-      split; [apply upd_other; exact Hne'|apply Hn1].
-    + destruct (t =? 5); [split; reflexivity|].
-      destruct (smtp_line (conns a j) t) as [stt' rs]. cbn [fst snd conns].
-      split; [apply upd_other; exact Hne'|apply on_conn_pair_ne; exact Hne].
-  - destruct ((1 <=? conns a j) && (conns a j <=? 4)); cbn [fst snd conns]; [|split; reflexivity].
-    split; [apply upd_other; exact Hne'|reflexivity].
-Qed.
-
-Lemma smtp_step_own i (a b : sys (list N) N) x : conns a i = conns b i ->
-  conns (fst (smtp_step a i x)) i = conns (fst (smtp_step b i x)) i /\
-  on_conn i (fst (snd (smtp_step a i x))) = on_conn i (fst (snd (smtp_step b i x))).
-Proof.
-  intros Hc. unfold smtp_step. rewrite Hc. destruct x as [|t arg pick|].
-  - destruct (conns b i =? 0); cbn [fst snd conns]; [|split; [exact Hc|reflexivity]].
-    split; [now rewrite !upd_same|reflexivity].
-  - destruct ((conns b i =? 0) || (conns b i =? 5)); [split; [exact Hc|reflexivity]|].
-    destruct (conns b i =? 4).
-    + destruct (t =? 5); cbn [fst snd conns]; [|split; [exact Hc|reflexivity]].
-      split; [now rewrite !upd_same|reflexivity].
-    + destruct (t =? 5); [split; [exact Hc|reflexivity]|].
-      destruct (smtp_line (conns b i) t) as [stt' rs]. cbn [fst snd conns].
-      split; [now rewrite !upd_same|reflexivity].
-  - destruct ((1 <=? conns b i) && (conns b i <=? 4)); cbn [fst snd conns]; [|split; [exact Hc|reflexivity]].
-    split; [now rewrite !upd_same|reflexivity].
-Qed.
-
-Lemma smtp_others i (a : sys (list N) N) j x : j <> i ->
-  eqv _ _ unit i (fun _ => tt) (fst (smtp_quiet a j x)) a /\
-  on_conn i (fst (snd (smtp_quiet a j x))) = [] /\ on_conn i (snd (snd (smtp_quiet a j x))) = [].
-Proof.
-  intros Hne. unfold smtp_quiet. rewrite erase_fst, erase_snd. cbn [fst snd].
-  destruct (smtp_step_others i a j x Hne) as [H1 H2].
-  split; [split; [exact H1|reflexivity]|split; [exact H2|reflexivity]].
-Qed.
-
-Lemma smtp_own i (a b : sys (list N) N) x : eqv _ _ unit i (fun _ => tt) a b ->
-  eqv _ _ unit i (fun _ => tt) (fst (smtp_quiet a i x)) (fst (smtp_quiet b i x)) /\
-  on_conn i (fst (snd (smtp_quiet a i x))) = on_conn i (fst (snd (smtp_quiet b i x))) /\
-  on_conn i (snd (snd (smtp_quiet a i x))) = on_conn i (snd (snd (smtp_quiet b i x))).
-Proof.
-  intros [Hc _]. unfold smtp_quiet. rewrite !erase_fst, !erase_snd. cbn [fst snd].
-  destruct (smtp_step_own i a b x Hc) as [H1 H2].
-  split; [split; [exact H1|reflexivity]|split; [exact H2|reflexivity]].
-Qed.
-
-Theorem smtp_replies_isolated : forall i tr,
-  replies_on i (run_outs smtp_step [] 0 tr) = replies_on i (run_outs smtp_step [] 0 (own i tr)).
-Proof.
-  intros i tr. unfold run_outs.
-  rewrite <- (erase_replies smtp_step i tr), <- (erase_replies smtp_step i (own i tr)).
-  pose proof (frame (list N) N unit smtp_quiet i (fun _ => tt) (fun _ _ => True)) as F.
-  specialize (F (fun a j x Hne _ => smtp_others i a j x Hne) (fun a b x Hab => smtp_own i a b x Hab)).
-  specialize (F tr (mkSys [] (fun _ => 0)) (mkSys [] (fun _ => 0)) (conj eq_refl eq_refl)).
-  assert (Hall : Forall (fun p : N * input => fst p = i \/ True) tr) by (apply Forall_forall; intros; right; exact I).
-  specialize (F Hall). exact (f_equal fst F).
-Qed.
-
 (* ---------- sequential histories ---------- *)
 Theorem local_history_irrelevant : forall C (lstep : C -> input -> C * list reply * list ev) c0 i h p,
   Forall (fun q : N * input => fst q <> i) h -> Forall (fun q : N * input => fst q = i) p ->
@@ -443,88 +264,6 @@ Proof.
   - eapply Forall_impl; [|exact Hp]. intros q Hq. left. exact Hq.
 Qed.
 
-(* ---------- the full statement fails for ldap, ftp, smtp: witnesses ---------- *)
-(* "step k of the scenario was taken by connection a, and one of its replies / events
-   went to / carries connection b" *)
-Definition reply_elsewhere (os : list outs) (tr : list (N * input)) (k : nat) (a b : N) : Prop :=
-  exists x o r, nth_error tr k = Some (a, x) /\ nth_error os k = Some o /\ In (b, r) (fst o) /\ r <> CLOSED /\ a <> b.
-Definition event_elsewhere (os : list outs) (tr : list (N * input)) (k : nat) (a b : N) : Prop :=
-  exists x o e, nth_error tr k = Some (a, x) /\ nth_error os k = Some o /\ In (b, e) (snd o) /\ a <> b.
-
-(* every scheduling choice named in the scenario is one the code can make: the chosen pump
-   belongs to a connection accepted earlier in the scenario *)
-Fixpoint picks_possible (opened : list N) (tr : list (N * input)) : bool :=
-  match tr with
-  | [] => true
-  | (i, Open) :: r => picks_possible (i :: opened) r
-  | (_, Tok _ _ p) :: r => memN p opened && picks_possible opened r
-  | (_, Close) :: r => picks_possible opened r
-  end.
-
-Definition ldap_w1 : list (N * input) := [(17, Open); (17, Tok 1 1 17); (34, Open); (17, Tok 4 2 17)].
-
-Lemma ldap_crosstalk : reply_elsewhere (run_outs ldap_step ldap_s0 ldap_g0 ldap_w1) ldap_w1 3 17 34.
-Proof.
-  exists (Tok 4 2 17), ([(34, 2011053)], [(17, mkEv 4 2)]), 2011053.
-  repeat split; try (vm_compute; reflexivity); try (left; reflexivity); discriminate.
-Qed.
-
-(* the other connection does nothing but connect; the bound session is treated as anonymous
-   and its own connection receives no answer *)
-Lemma ldap_login_reset :
-  own 34 ldap_w1 = [(34, Open)] /\
-  replies_on 17 (run_outs ldap_step ldap_s0 ldap_g0 ldap_w1) = [1001000] /\
-  replies_on 17 (run_outs ldap_step ldap_s0 ldap_g0 (own 17 ldap_w1)) = [1001000; 2011000] /\
-  replies_on 34 (run_outs ldap_step ldap_s0 ldap_g0 ldap_w1) = [2011053].
-Proof. repeat split; vm_compute; reflexivity. Qed.
-
-Definition ftp_w1 : list (N * input) :=
-  [(17, Open); (17, Tok 1 1 17); (17, Close); (34, Open); (34, Tok 6 0 17)].
-
-Lemma ftp_misattribution :
-  picks_possible [] ftp_w1 = true /\
-  event_elsewhere (run_outs ftp_step ftp_s0 ftp_c0 ftp_w1) ftp_w1 4 34 17.
-Proof.
-  split; [vm_compute; reflexivity|].
-  exists (Tok 6 0 17), ([(34, 200000)], [(17, mkEv 1 96)]), (mkEv 1 96).
-  repeat split; try (vm_compute; reflexivity); try (left; reflexivity); discriminate.
-Qed.
-
-Definition ftp_w2 : list (N * input) :=
-  [(17, Open); (17, Tok 1 1 17); (17, Tok 2 1 17); (34, Open); (34, Tok 1 1 34); (34, Tok 2 1 34);
-   (17, Tok 4 1 17); (34, Tok 3 0 34)].
-
-Lemma ftp_shared_cwd :
-  replies_on 34 (run_outs ftp_step ftp_s0 ftp_c0 ftp_w2) = [220000; 331000; 230000; 257001] /\
-  replies_on 34 (run_outs ftp_step ftp_s0 ftp_c0 (own 34 ftp_w2)) = [220000; 331000; 230000; 257000].
-Proof. split; vm_compute; reflexivity. Qed.
-
-(* the working directory of a session that has ended is where the next session starts *)
-Definition ftp_w3 : list (N * input) :=
-  [(17, Open); (17, Tok 1 1 17); (17, Tok 2 1 17); (17, Tok 4 8 17); (17, Tok 8 0 17);
-   (34, Open); (34, Tok 1 1 34); (34, Tok 2 1 34); (34, Tok 3 0 34)].
-Lemma ftp_cwd_survives_session :
-  replies_on 34 (run_outs ftp_step ftp_s0 ftp_c0 ftp_w3) = [220000; 331000; 230000; 257003] /\
-  replies_on 34 (run_outs ftp_step ftp_s0 ftp_c0 (own 34 ftp_w3)) = [220000; 331000; 230000; 257000].
-Proof. split; vm_compute; reflexivity. Qed.
-
-Definition smtp_w1 : list (N * input) :=
-  [(17, Open); (17, Tok 1 0 17); (17, Tok 8 0 17); (34, Open); (34, Tok 1 0 34); (34, Tok 2 0 34);
-   (34, Tok 4 0 34); (34, Tok 5 8 17)].
-
-(* the mail of connection 34 is reported under the address of connection 17, which has
-   already said QUIT and been closed *)
-Lemma smtp_misattribution :
-  picks_possible [] smtp_w1 = true /\
-  conns (fst (run smtp_step (mkSys [] (fun _ => 0)) smtp_w1)) 17 = 5 /\
-  event_elsewhere (run_outs smtp_step [] 0 smtp_w1) smtp_w1 7 34 17.
-Proof.
-  split; [vm_compute; reflexivity|]. split; [vm_compute; reflexivity|].
-  exists (Tok 5 8 17), ([(34, 250000)], [(17, mkEv 2 8)]), (mkEv 2 8).
-  repeat split; try (vm_compute; reflexivity); try (left; reflexivity); discriminate.
-Qed.
-
-(* the hypothesis of tftp_frame is needed: two clients behind one IP share the limiter *)
 Definition tftp_w1 : list (N * input) :=
   [(32, Tok 1 1 0); (32, Tok 1 1 0); (32, Tok 1 1 0); (32, Tok 1 1 0); (33, Tok 1 2 0)].
 Lemma tftp_same_ip_shares_limiter :
@@ -533,8 +272,7 @@ Lemma tftp_same_ip_shares_limiter :
   obs 33 (run_outs tftp_step tftp_s0 tt (own 33 tftp_w1)) = ([5001], [mkEv 1 2]).
 Proof. repeat split; vm_compute; reflexivity. Qed.
 
-(* ---------- replies never go to another client (ftp, smtp, tftp); smtp input-line events
-   and all tftp events carry the stepping connection ---------- *)
+(* ---------- a property of every step holds at every position of every run ---------- *)
 Section StepProperty.
   Variables S C : Type.
   Variable step : sys S C -> N -> input -> sys S C * outs.
@@ -551,38 +289,10 @@ Section StepProperty.
   Qed.
 End StepProperty.
 
-Definition replies_own (j : N) (o : outs) : Prop := Forall (fun r : N * reply => fst r = j) (fst o).
 Definition all_own (j : N) (o : outs) : Prop :=
   Forall (fun r : N * reply => fst r = j) (fst o) /\ Forall (fun e : N * ev => fst e = j) (snd o).
-Definition smtp_own_outs (j : N) (o : outs) : Prop :=
-  Forall (fun r : N * reply => fst r = j) (fst o) /\
-  Forall (fun e : N * ev => e_type (snd e) = 1 -> fst e = j) (snd o).
-
 Lemma Forall_map_pair {A} j (l : list A) : Forall (fun r : N * A => fst r = j) (map (pair j) l).
 Proof. apply Forall_forall. intros p Hp. apply in_map_iff in Hp. destruct Hp as (y & <- & _). reflexivity. Qed.
-
-Lemma ftp_step_replies_own st j x : replies_own j (snd (ftp_step st j x)).
-Proof.
-  unfold replies_own, ftp_step. destruct x as [|t a pick|].
-  - destruct (fc_ph (conns st j) =? PH_NONE); cbn [fst snd no_outs]; repeat constructor.
-  - destruct (negb (fc_ph (conns st j) =? PH_LIVE)); [constructor|].
-    destruct (ftp_cmd (shared st) (conns st j) t a) as [[s' c'] rs]. cbn [fst snd]. apply Forall_map_pair.
-  - destruct (fc_ph (conns st j) =? PH_LIVE); constructor.
-Qed.
-
-Lemma smtp_step_own_outs st j x : smtp_own_outs j (snd (smtp_step st j x)).
-Proof.
-  unfold smtp_own_outs, smtp_step. destruct x as [|t a pick|].
-  - destruct (conns st j =? 0); cbn [fst snd no_outs]; split; repeat constructor.
-  - destruct ((conns st j =? 0) || (conns st j =? 5)); [split; constructor|].
-    destruct (conns st j =? 4).
-    + destruct (t =? 5); cbn [fst snd no_outs]; split; repeat constructor.
-      cbn [snd e_type]. discriminate.
-    + destruct (t =? 5); [split; constructor|].
-      destruct (smtp_line (conns st j) t) as [stt' rs]. cbn [fst snd].
-      split; [apply Forall_map_pair|repeat constructor].
-  - destruct ((1 <=? conns st j) && (conns st j <=? 4)); split; constructor.
-Qed.
 
 Lemma tftp_step_all_own st j x : all_own j (snd (tftp_step st j x)).
 Proof.
@@ -594,14 +304,16 @@ Proof.
   end; cbn [fst snd no_outs]; split; repeat constructor.
 Qed.
 
-Theorem ftp_replies_never_elsewhere : forall tr st k j x o,
-  nth_error tr k = Some (j, x) -> nth_error (snd (run ftp_step st tr)) k = Some o -> replies_own j o.
-Proof. exact (run_steps_P _ _ ftp_step replies_own ftp_step_replies_own). Qed.
-
-Theorem smtp_replies_and_line_events_own : forall tr st k j x o,
-  nth_error tr k = Some (j, x) -> nth_error (snd (run smtp_step st tr)) k = Some o -> smtp_own_outs j o.
-Proof. exact (run_steps_P _ _ smtp_step smtp_own_outs smtp_step_own_outs). Qed.
-
 Theorem tftp_outputs_own : forall tr st k j x o,
   nth_error tr k = Some (j, x) -> nth_error (snd (run tftp_step st tr)) k = Some o -> all_own j o.
 Proof. exact (run_steps_P _ _ tftp_step all_own tftp_step_all_own). Qed.
+
+(* the former two-session witnesses of the ldap / ftp / smtp defects (kept as regression
+   scenarios in the harness corpus) *)
+Definition ldap_w1 : list (N * input) := [(17, Open); (17, Tok 1 1 17); (34, Open); (17, Tok 4 2 17)].
+Definition ftp_w2 : list (N * input) :=
+  [(17, Open); (17, Tok 1 1 17); (17, Tok 2 1 17); (34, Open); (34, Tok 1 1 34); (34, Tok 2 1 34);
+   (17, Tok 4 1 17); (34, Tok 3 0 34)].
+Definition smtp_w1 : list (N * input) :=
+  [(17, Open); (17, Tok 1 0 17); (34, Open); (34, Tok 1 0 34); (34, Tok 2 0 34);
+   (34, Tok 4 0 34); (34, Tok 5 7 17)].
